@@ -245,7 +245,7 @@ cls(
     views={"features": lambda o: set(o.features), "context": lambda o: M.P(o.context)},
     notes="a BaseFeatureWriter instance: features (tags it can write), mode, insertFeatureMarker, context",
 )
-CLASSES[NS].fields.update({"font": Ref("c17_Font"), "todo": Ref(TAGSET), "existingFeatures": Ref(TAGSET), "insertComments": Opt(MARKERS), "feaFile": Ref(FEAFILE)})
+CLASSES[NS].fields.update({"font": Ref("c17_Font"), "todo": Ref(TAGSET), "existingFeatures": Ref(TAGSET), "insertComments": Opt(MARKERS), "feaFile": Ref(FEAFILE), "isVariable": BOOL})
 
 _SKIP = "self.mode == 'skip'"
 _MARKED = "(self.insertFeatureMarker is not None and result.insertComments is not None and t in result.insertComments)"
@@ -259,6 +259,8 @@ contract(
     modifies=["c17_Writer.context"],
     ensures={
         "context": "result == self.context and result.feaFile == feaFile and result.font == font",
+        # the font handed in is a Font, not a DesignSpaceDocument (class c17_Font): the context says so (used by C18's _getLigatureCarets)
+        "static-font": "not result.isVariable",
         # only features of this writer are ever generated
         "todo-subset": "all(t in self.features for t in result.todo)",
         # skip mode: generated iff the user has no top-level block of the tag, or one of them carries the marker
